@@ -158,6 +158,27 @@ Theorem C01_from_pattern_string :
   end.
 Proof. exact pattern_vm_follows_reference. Qed.
 
+
+(* ... and for a pattern written in ASCII (the text searched is arbitrary valid UTF-8; escapes
+   like \x{e9} or é in the pattern are fine) nothing at all is assumed about the tree: the
+   hypotheses are "it parses", "it compiles to a VM program" and [condok] *)
+Theorem C01_from_ascii_pattern_string :
+  forall (re : list nat), Forall (fun b => b < 128) re ->
+  forall (e : expr) (st : pst), parse re = POk (e, st) ->
+  condok true e ->
+  forall (p : prog) (n : nat), regex_new (bs_of st) e = inr (RFancy p n) ->
+  forall cs : list (list nat), valid_chars cs ->
+  forall cx : ctx, c_text cx = concat cs -> (N.of_nat (length (concat cs)) < usize_max)%N ->
+  bnd cs (c_pos cx) ->
+  forall (max_st : nat) (lim : option N) (fuelv : nat),
+  match fst (vm_run cx p max_st lim fuelv) with
+  | RMatch sv => search_list cx e (S (length (c_text cx))) = Some (firstn (2 * S (ngroups e)) sv)
+  | RNoMatch => search_list cx e (S (length (c_text cx))) = None
+  | RPanic => False
+  | _ => True
+  end.
+Proof. exact ascii_pattern_vm_follows_reference. Qed.
+
 (* what the parser guarantees, for every byte string *)
 Theorem C01_parser_invariants : forall re e st, parse re = POk (e, st) ->
   refs_ok True (fun g => bs_of st g = true) e /\ zok e /\ lbz e.
@@ -253,5 +274,6 @@ Print Assumptions C01_reference_forms_agree.
 Print Assumptions C01_in_scope.
 Print Assumptions C01_in_scope_all.
 Print Assumptions C01_from_pattern_string.
+Print Assumptions C01_from_ascii_pattern_string.
 Print Assumptions C01_parser_invariants.
 Print Assumptions C01_vm_implements_atomized.
